@@ -7,6 +7,8 @@
 -/
 import Varlink.Race
 import VarlinkProofs.Lemmas.Race
+import Varlink.Extracted.Code
+import Varlink.ExpectedCode
 namespace Varlink.C16
 open Varlink Varlink.Race Varlink.Extracted
 
@@ -278,5 +280,11 @@ example : ∃ s, Reach exampleProgram s ∧
 theorem ctxio_without_join_undisciplined :
     ¬ Disciplined (cxProgram [({ ctxioReadOp with cancelArm := ctxioReadOp.cancelArm.filter (· ≠ .recv) }, .cancelled),
                               (ctxioReadOp, .completed)]) := by decide +kernel
+
+/-- **Tie to the source**: the declarations of /repo that this property's model transliterates
+    (`Extracted.codeNames_C16`) have, in the current working tree, exactly the fingerprints of the code the
+    model was validated against. Any change to them breaks this obligation; the check then searches the
+    correspondence streams for an input on which the changed code violates the property. -/
+theorem modelled_code_unchanged : Varlink.Extracted.code_C16 = Varlink.ExpectedCode.code_C16 := by decide
 
 end Varlink.C16
